@@ -78,7 +78,7 @@ func (w *world) runLimit(ls *limitSpec) (res limitResult) {
 		case e := <-w.ev:
 			take(e)
 		case <-time.After(5 * time.Millisecond):
-			live, sleeping, inWait := census()
+			live, sleeping, _, _, inWait := census()
 			if inWait && len(held)+sleeping == live {
 				quiet = true
 			}
